@@ -7,11 +7,11 @@ W=/tmp/w/$id
 cd /verif
 # uncommitted-but-ignored per-property files
 mkdir -p tools/claims.d known_findings.d
-[ -f $W/verif/tools/claims.d/$id.json ] && cp $W/verif/tools/claims.d/$id.json tools/claims.d/
-[ -f $W/verif/known_findings.d/$id.json ] && cp $W/verif/known_findings.d/$id.json known_findings.d/
 git -C $W/verif status --short | grep -v '^??' || true
 echo "--- untracked in worktree:"; git -C $W/verif status --short | grep '^??' || true
 git merge --no-edit w$id 2>&1 | tail -3
+[ -f tools/claims.d/$id.json ] || { [ -f $W/verif/tools/claims.d/$id.json ] && cp $W/verif/tools/claims.d/$id.json tools/claims.d/; }
+[ -f known_findings.d/$id.json ] || { [ -f $W/verif/known_findings.d/$id.json ] && cp $W/verif/known_findings.d/$id.json known_findings.d/; }
 # repo fixes
 for c in $(git -C /repo log --reverse --format=%H main..w$id); do
   echo "cherry-pick $(git -C /repo log -1 --format='%h %s' $c)"
